@@ -129,6 +129,7 @@ theorem seqLikeWith_LR {pe : Bool → B → List Int → R (B × List Int)} {pc 
     split at h
     · obtain ⟨v', _, h⟩ := (bind_ok _ _ _).1 h
       obtain ⟨bs, _, h⟩ := (bind_ok _ _ _).1 h
+      obtain ⟨vp, _, h⟩ := (bind_ok _ _ _).1 h
       cases h
       simp only [LR]
     · simp [notSupported, fail] at h
